@@ -11,41 +11,8 @@ From Coq Require Import String.
 From Coq Require Import List ZArith NArith Bool Arith Lia.
 Import ListNotations.
 Require Import PyLib PyLib2 PyRe Str IpText Rx RxFacts RxSub G_rx G_text_consts G_juniper JunModel JunProofs TextModel TextProofs2 TotalProofs G_fn_jun G_fn_sir G_fn_sir2 RefJun RefJunEnc RefJunDec RefEncl RefValue.
+Require Export RefSplit.
 Notation vstr := RefJun.vstr.
-
-(* ---- _split_line ---- *)
-Lemma lstrip_length s : (length (lstrip s) <= length s)%nat.
-Proof. induction s as [|c s IH]; cbn [lstrip length]; [lia|]. destruct (is_space c); cbn [length]; lia. Qed.
-Lemma rstrip_length s : (length (rstrip s) <= length s)%nat.
-Proof. unfold rstrip. rewrite rev_length. etransitivity; [apply lstrip_length|]. now rewrite rev_length. Qed.
-Lemma py_lstrip_vstr s : py_lstrip (vstr s) = Normal (vstr (lstrip s)). Proof. unfold py_lstrip, RefJun.vstr. now rewrite to_of_N. Qed.
-Lemma py_rstrip_vstr s : py_rstrip (vstr s) = Normal (vstr (rstrip s)). Proof. unfold py_rstrip, RefJun.vstr. now rewrite to_of_N. Qed.
-Lemma py_split_ws_vstr s : py_split_ws (vstr s) = Normal (VList (map vstr (split_ws s))). Proof. unfold py_split_ws, RefJun.vstr. now rewrite to_of_N. Qed.
-Lemma slice_neg_vstr v k : (0 < k <= length v)%nat -> py_slice (vstr v) VNone (VInt (- Z.of_nat k)) = Normal (vstr (firstn (length v - k) v)).
-Proof. exact (RefEncl.py_slice_upto_neg v k). Qed.
-Lemma slice_zero_vstr v : py_slice (vstr v) VNone (VInt 0) = Normal (vstr []).
-Proof. change (VInt 0) with (VInt (Z.of_nat 0)). now rewrite py_slice_to. Qed.
-
-Lemma gen_split_line_refines pc fuel line :
-  gen__split_line pc fuel (vstr line) = (let '(l, w, t) := split_line line in Normal (VTuple [vstr l; VList (map vstr w); vstr t])).
-Proof.
-  unfold gen__split_line, split_line. rewrite py_lstrip_vstr. cbn [PyLib.bind]. rewrite RefJunDec.py_len_vstr. cbn [PyLib.bind py_neg].
-  pose proof (lstrip_length line) as Hl.
-  assert (E1 : py_slice (vstr line) VNone (VInt (- Z.of_nat (length (lstrip line))))
-               = Normal (vstr (match lstrip line with [] => [] | _ => firstn (length line - length (lstrip line)) line end))).
-  { destruct (lstrip line) as [|c r] eqn:El; [exact (slice_zero_vstr line)|]. rewrite <- El in *. apply slice_neg_vstr. rewrite El in *. cbn [length] in *. lia. }
-  rewrite E1. cbn [PyLib.bind]. rewrite py_split_ws_vstr. cbn [PyLib.bind]. rewrite py_rstrip_vstr. cbn [PyLib.bind].
-  rewrite RefJunDec.py_len_vstr. cbn [PyLib.bind]. rewrite py_slice_from. reflexivity.
-Qed.
-
-(* " ".join(words) *)
-Lemma join_strs_vstr sep : forall l, join_strs (map Z.of_N sep) (map vstr l) = Some (map Z.of_N (join sep l)).
-Proof.
-  induction l as [|x [|y l] IH]; [reflexivity|reflexivity|].
-  cbn [map join_strs join] in *. unfold RefJun.vstr in *. rewrite IH. now rewrite !map_app.
-Qed.
-Lemma py_join_vstr sep l : py_join (vstr sep) (VList (map vstr l)) = Normal (vstr (join sep l)).
-Proof. unfold py_join, RefJun.vstr at 1. cbn [py_iter PyLib.bind]. now rewrite join_strs_vstr. Qed.
 
 (* ---- "for every sufficiently large fuel" forms (fuel is an artefact of the translation of while loops) ---- *)
 Theorem gen_anonymize_value_eventually pc orc : passlib_answers_as_the_model pc orc ->
@@ -291,7 +258,7 @@ Proof.
     replace (Z.of_nat n <? 0)%Z with false by (symmetry; apply Z.ltb_ge; lia). rewrite Nat2Z.id, Egn. cbn [PyLib.bind].
 
     rewrite (value_need_ok pc orc fuel secret lk reserved salt anon lk' Hpl Hb Hu Hneed Eav). cbn [PyLib.bind unpack2].
-    rewrite RefJunEnc.py_add_vstr. cbn [PyLib.bind]. rewrite pcall_sub_const. unfold sub_of. rewrite re_of_nat, Hnth, !to_str_vstr.
+    rewrite RefStr.py_add_vstr. cbn [PyLib.bind]. rewrite pcall_sub_const. unfold sub_of. rewrite re_of_nat, Hnth, !to_str_vstr.
     repeat match goal with |- context [sub_fn ln rx ?cb tt] => lazymatch cb with cbm => fail | _ => change cb with cbm end end.
     rewrite Esub. cbn [PyLib.bind]. reflexivity. }
   (* the inner loop over one group *)
@@ -345,7 +312,7 @@ Proof.
   pose proof (Hgroups groups oline lookup VNone VNone VNone VNone VNone VNone VNone Hcons Hbytes Huniq ltac:(lia)) as Hall.
   destruct (apply_groups orc reserved salt (map (map snd) groups) oline lookup) as [[l lk]|w]; cbn [obind]; [|discriminate].
   destruct Hall as (a6' & b11 & b12 & b13 & b14 & b15 & b16 & Eall). intros [= <- <-].
-  unfold S1 in Eall. rewrite Eall. unfold KK, KK2. cbn [PyLib.bindS PyLib.bind]. rewrite RefJunEnc.py_add_vstr. cbn [PyLib.bind]. rewrite RefJunEnc.py_add_vstr. cbn [PyLib.bind call].
+  unfold S1 in Eall. rewrite Eall. unfold KK, KK2. cbn [PyLib.bindS PyLib.bind]. rewrite RefStr.py_add_vstr. cbn [PyLib.bind]. rewrite RefStr.py_add_vstr. cbn [PyLib.bind call].
   now rewrite <- app_assoc.
 Qed.
 
